@@ -913,8 +913,8 @@ def run_history(flags_of_class, drv, hist, want_model=True, small=False):
                 diffs["raised"] = {"impl": ob["raised"], "model": raised_acc[idx[i]], "exc": ob["exc"]}
             if [tuple(x) for x in ob["flags"]] != st["flags"]:
                 a, b = set(map(tuple, ob["flags"])), set(st["flags"])
-                diffs["flags"] = {"impl_only": [f"{rn.g.describe(j)}.{flags_of_class[rn.g.cls[j]][f]}" for j, f in sorted(a - b)],
-                                  "model_only": [f"{rn.g.describe(j)}.{flags_of_class[rn.g.cls[j]][f]}" for j, f in sorted(b - a)]}
+                diffs["flags"] = {"impl_only": [f"{rn.g.describe(j)}.{_flag_name(flags_of_class, rn.g.cls[j], f)}" for j, f in sorted(a - b)],
+                                  "model_only": [f"{rn.g.describe(j)}.{_flag_name(flags_of_class, rn.g.cls[j], f)}" for j, f in sorted(b - a)]}
             # a Container has no value of its own to observe: leave its cell out of the comparison
             full_model_stale = list(st["stale"])
             st["stale"] = [c for c in st["stale"] if rn.g.cells[c].name != "contents"]
@@ -963,6 +963,11 @@ def shrink(flags_of_class, drv, hist, pred, small=False):
                 changed = True
                 break
     return cur
+
+
+def _flag_name(flags_of_class, cls, f):
+    fl = flags_of_class.get(cls, [])
+    return fl[f] if f < len(fl) else f"flag#{f}"
 
 
 def vio_sig(v):
